@@ -165,6 +165,7 @@ type SpanFile struct {
 	freeMap        freeMap // Change from freeList to freeMap
 	sequenceNumber uint32
 	fileMutex      sync.Mutex
+	readOnly       bool // opened with ReadOnly: the mapping must not be written
 }
 
 type FreeSpan struct {
@@ -268,6 +269,7 @@ func OpenFile(filename string, mode FileMode) (*SpanFile, error) {
 		freeMap:        freeMap{freeSpaces: []space{}}, // Initialize freeMap
 		sequenceNumber: 0,
 		fileName:       filename,
+		readOnly:       mode == ReadOnly,
 	}
 
 	err = db.scanFile()
@@ -336,8 +338,15 @@ func (db *SpanFile) scanFile() error {
 
 			existingSequence, exists := sequences[span.RecordID]
 			if !exists || span.SequenceNumber > existingSequence {
+				if exists {
+					// the span indexed so far holds an older version
+					db.freeSuperseded(db.index[span.RecordID])
+				}
 				sequences[span.RecordID] = span.SequenceNumber
 				db.index[span.RecordID] = uint64(offset)
+			} else {
+				// a newer version of this record is already indexed
+				db.freeSuperseded(uint64(offset))
 			}
 		} else if magicNumber == freeMagic {
 			SpanLog("FREE: span:%v-%v/%v", offset, offset+int(length), length)
@@ -354,6 +363,23 @@ func (db *SpanFile) scanFile() error {
 
 	db.sequenceNumber = highestSeqNum + 1
 	return nil
+}
+
+// freeSuperseded releases an active span that holds an older version of a
+// record for which a newer active span exists. Such a pair is left behind when
+// the process dies between writing the new span and freeing the old one; if the
+// old span stayed active, removing the record later would bring it back at the
+// next open.
+func (db *SpanFile) freeSuperseded(offset uint64) {
+	if db.readOnly {
+		return
+	}
+	length, err := db.getSpanLength(int(offset))
+	if err != nil {
+		return
+	}
+	db.markSpanAsFreed(offset)
+	db.addFreeSpan(offset, length)
 }
 
 // TODO: use freemap instead
